@@ -161,6 +161,32 @@ theorem add_copy_independent (cfg : Cfg) (hg : cfg.Good) {H H1 : Heap} {RA : Nat
   rw [edit_views hRA1 (fun a h1' h2 => h1' h2) hconf k a ha]
   exact (copy_iso cfg hg hRA hc h1 k).2 a ha
 
+/-- **Removing a class** (by the name of the argument, whether the argument is the registered
+    object or a copy of it) writes only the holder and the classes it held under that name: it is
+    confined to any region that contains the holder and is closed, so it is invisible in every
+    other tree. -/
+theorem remove_class_confined {H : Heap} {R : Nat → Prop} (hR : Region H R) {holder : Nat} (hh : R holder)
+    (n : String) (registered : Bool) : Confined H R (removeClassEdit H holder n registered) := by
+  unfold Confined removeClassEdit
+  cases ho : H[holder]? with
+  | none => intro w hw; cases hw
+  | some oh =>
+    intro w hw
+    simp only [List.mem_cons] at hw
+    rcases hw with hw | hw
+    · subst hw; exact Or.inl hh
+    · cases registered with
+      | false => simp at hw
+      | true =>
+        simp only [if_true, List.mem_filterMap, List.mem_filter] at hw
+        obtain ⟨c, ⟨hc, _⟩, hw⟩ := hw
+        cases hoc : H[c]? with
+        | none => simp [hoc] at hw
+        | some oc =>
+          simp only [hoc, Option.some.injEq] at hw
+          subst hw
+          exact Or.inl (hR.closed holder oh _ hh ho (ownIds_mem hc))
+
 /-- **Copies of copies.**  Copy a tree, edit the copy in any way that leaves it a tree, copy the
     copy: the second copy unfolds like the *edited copy*, and the original still unfolds as it did
     before anything happened. -/
@@ -284,6 +310,12 @@ theorem counterexample_add_class_moves :
      | some (H1, y) => decide (lookupPath (applyEdit H1 (addClassMoveEdit H1 4 y)) 0 ["A"] = none) &&
          decide (viewLabels (applyEdit H1 (addClassMoveEdit H1 4 y)) 3 0 ≠ viewLabels demo 3 0)
      | none => false) = true := by
+  decide +kernel
+
+/-- removing class `A` by name removes it, whether the registered object or a copy is passed -/
+example : decide (lookupPath (applyEdit demo (removeClassEdit demo 0 "A" false)) 0 ["A"] = none) &&
+    decide (lookupPath (applyEdit demo (removeClassEdit demo 0 "A" true)) 0 ["A"] = none) &&
+    decide (lookupPath (applyEdit demo (removeClassEdit demo 0 "A" true)) 0 ["C"] = some 4) = true := by
   decide +kernel
 
 /-- the hooks before the fix: the copy's instance attribute is the bound method of the original -/
